@@ -280,7 +280,10 @@ func (s *Subscriber) GetLatestSync(peerID peer.ID) ipld.Link {
 	if s.lastKnownSync != nil {
 		c, ok = s.lastKnownSync(peerID)
 		if ok && c != cid.Undef {
-			s.latestSyncHandler.setLatestSync(peerID, c)
+			// A sync of this peer may have finished while lastKnownSync ran.
+			// Keep what it recorded instead of overwriting it with the older
+			// last known value.
+			c = s.latestSyncHandler.setLatestSyncIfAbsent(peerID, c)
 			return cidlink.Link{Cid: c}
 		}
 	}
